@@ -2,8 +2,12 @@
 one that raises.
 
 Theorems: Props/C08.lean (well-founded measure decreases on every modelled rule; idempotence).
-Correspondence: measure decrease on each fired rewrite expressible in the mini-language (pending
-the rules model).
+Correspondence (harness/export.py, driver family ru.*): every fired rewrite whose two sides export to
+the mini-language must be sound for the model (`ru.equiv`; a 0 is a model/implementation disagreement);
+the model's termination measure is evaluated on both sides (`ru.measure`, evidence: `measure.decreased`
+/ `measure.not_decreased` by rule — the real optimizer's own termination argument differs for rules the
+model represents differently, so a non-decrease is never a verdict) and the instances of modelled,
+proved rules are counted (`rule_instances_covered` / `_uncovered`).
 Search: every program that computes with array.optimize-graph=False must simplify/lower/fuse
 without error under a watchdog, optimizing the optimized expression must return the same name,
 and the optimized compute must not raise.
@@ -15,7 +19,7 @@ import warnings
 
 import numpy as np
 
-from harness import classify, progcheck as PC, programs as P, trace as T
+from harness import classify, export as X, progcheck as PC, programs as P, trace as T
 
 KNOWN = ("swv-layout-drift", "take-through-broadcast")
 WATCHDOG_S = 20
@@ -80,6 +84,7 @@ def check_program(ctx, prog, want):
         signal.signal(signal.SIGALRM, old)
     ctx.count((tuple(sorted({r["rule"] for r in recs})), len(recs) > 0))
     ctx.notes["rewrites_fired"] = ctx.notes.get("rewrites_fired", 0) + len(recs)
+    X.collect(ctx, prog, recs)  # model correspondence (driver consulted once, in run())
     if e2._name != e1._name:
         # which rules still fire on an already optimized tree?  (the signature names them, so a
         # different source of non-idempotence is a different finding)
@@ -118,6 +123,7 @@ def run(ctx, replay=None):
     if replay is not None:
         prog = replay["case"]["program"]
         check_program(ctx, prog, None)
+        X.flush(ctx)
         return
     PC.probe_known(ctx, KNOWN)
     # dedicated probe of the listed idempotence finding (prints KNOWN-FINDING while it reproduces)
@@ -127,10 +133,12 @@ def run(ctx, replay=None):
              {"op": "stack", "args": ["v1", "v5"], "axis": 0, "out": "v6"},
              {"op": "sub", "args": ["v6", "v2"], "out": "v7"}]
     check_program(ctx, probe, None)
-    N = ctx.scale(400, 5000)
+    N = ctx.scale(700, 6000)
     for i in range(N):
         zero = 0.05 if rng.random() < 0.2 else 0.0
-        prog, g = P.gen_program(rng, depth=rng.randint(2, ctx.scale(7, 11)), avoid=("swv-consumer",), zero_axes=zero)
+        prog, g = P.gen_program(rng, depth=rng.randint(2, ctx.scale(7, 11)), avoid=("swv-consumer",), zero_axes=zero,
+                                ops=P.DEFAULT_OPS + ("self_transpose", "self_transpose", "map_blocks", "expand_dims", "rechunk"))
         check_program(ctx, prog, g.env[prog[-1]["out"]])
         if i < 3:
             ctx.sample({"program": prog})
+    X.flush(ctx)
